@@ -234,6 +234,13 @@ ClosedOnlyAfterInitFailure == P_ClosedOnlyAfterInitFailure(cfg, got)
 BoundedSets == P_BoundedSets(cfg, nds)
 ReaderAhead == P_ReaderAhead(cfg, maxAhead)
 RecycledOnly == P_RecycledOnly(cfg, got)
+\* the counting abstraction ParallelCount (proved inductive for every Q with Apalache) covers this model:
+\* while the consumer is alive, the data sets in the channels, in the reader's hand, in jobs and in the
+\* consumer's hands are among those created
+CountSum == Len(emptyCh) + (IF rpc = "fill" THEN 1 ELSE 0) + Jobs
+            + Cardinality({i \in 1..Len(doneCh) : doneCh[i].t = "ok"})
+            + (IF cpc = "recycle" THEN 2 ELSE IF cpc \in {"func", "drop", "join"} THEN 1 ELSE 0)
+CountAbstraction == consAlive => CountSum <= Len(ds) /\ Len(ds) <= cfg.Q + 1 /\ Len(emptyCh) <= cfg.Q /\ Len(doneCh) <= cfg.Q
 \* C08
 Termination == <>Terminated
 =============================================================================
